@@ -76,6 +76,9 @@ pub struct Tx<'a> {
     pub ops: bool,
     /// WRAP rules (forwarding wrappers; template with //@DIALECT WRAP = OPS + R44/R45)
     pub wrap: bool,
+    /// R46: `let link = if c { &mut A } else { &mut B };` — (name, translated c, A, B); `*link = E(*link)` becomes a branch on c
+    pub link_alias: Option<(String, String, String, String)>,
+    pub link_subst: Option<String>,
     /// R27: `X = loop { .. break V; .. }` is emitted as `loop { .. X = V; break; .. }` (Verus has no break-with-value)
     pub break_targets: Vec<Option<String>>,
 }
@@ -209,6 +212,11 @@ impl<'a> Tx<'a> {
                 let s = path_str(&p.path);
                 if self.ops && s == "self" {
                     return "this".to_string(); // the object the method is called on
+                }
+                if let (Some((nm, _, _, _)), Some(sub)) = (&self.link_alias, &self.link_subst) {
+                    if &s == nm {
+                        return sub.clone();
+                    }
                 }
                 s
             }
@@ -747,7 +755,13 @@ impl<'a> Tx<'a> {
                 let r = self.expr(&m.receiver);
                 let i = self.expr(&m.args[0]);
                 let v = self.expr(&m.args[1]);
+                let v = if self.ops { self.hoist(v) } else { v };
                 format!("h.store_bin({}, {}, {})", r, i, v)
+            }
+            "get_moved" if self.ops => {
+                let r = self.expr(&m.receiver);
+                let a = self.expr(&m.args[0]);
+                format!("h.get_moved({}, {})", r, a)
             }
             "help_transfer" | "add_count" if self.self_ptr => {
                 // method of the map itself: f(h, this, args..) (guard arguments dropped)
@@ -859,6 +873,27 @@ impl<'a> Tx<'a> {
                     }
                 }
                 self.err("destructuring let", l.span());
+            }
+            syn::Stmt::Local(l) if self.ops && {
+                // R46 detection
+                let mut ok = false;
+                if let (syn::Pat::Ident(_), Some(init)) = (&l.pat, &l.init) {
+                    if let syn::Expr::If(i) = &*init.expr {
+                        let t = toks(&i.then_branch).replace(' ', "");
+                        ok = t.starts_with("{&mut") && i.else_branch.is_some();
+                    }
+                }
+                ok
+            } => {
+                if let (syn::Pat::Ident(pi), Some(init)) = (&l.pat, &l.init) {
+                    if let syn::Expr::If(i) = &*init.expr {
+                        let grab = |b: &syn::Block| -> String { toks(b).replace(' ', "").trim_start_matches("{&mut").trim_end_matches('}').to_string() };
+                        let a = grab(&i.then_branch);
+                        let b = match &i.else_branch { Some((_, e)) => match &**e { syn::Expr::Block(bb) => grab(&bb.block), _ => String::new() }, None => String::new() };
+                        let c = self.expr(&i.cond);
+                        self.link_alias = Some((pi.ident.to_string(), c, a, b));
+                    }
+                }
             }
             syn::Stmt::Local(l) if self.self_ptr && matches!(&l.pat, syn::Pat::Wild(_)) => {
                 // R18: `let _ = <expr>;` evaluates the expression and drops the result
@@ -1250,6 +1285,26 @@ impl<'a> Tx<'a> {
                     self.lines.last_mut().unwrap().text.push(';');
                     return;
                 }
+                if let (Some((nm, c, la, lb)), syn::Expr::Unary(u)) = (self.link_alias.clone(), &*a.left) {
+                    if matches!(u.op, syn::UnOp::Deref(_)) && toks(&*u.expr) == nm {
+                        // R46: *link = E(*link)
+                        self.link_subst = Some(la.clone());
+                        let ra = self.expr(&a.right);
+                        let pre_a: Vec<String> = self.pre.drain(..).collect();
+                        self.link_subst = Some(lb.clone());
+                        let rb = self.expr(&a.right);
+                        let pre_b: Vec<String> = self.pre.drain(..).collect();
+                        self.link_subst = None;
+                        self.push(ind, format!("if {} {{", c), ln, false);
+                        for p0 in pre_a { self.push(ind + 1, p0, ln, true); }
+                        self.push(ind + 1, format!("{} = {};", la, ra), ln, true);
+                        self.push(ind, "} else {".into(), 0, false);
+                        for p0 in pre_b { self.push(ind + 1, p0, ln, true); }
+                        self.push(ind + 1, format!("{} = {};", lb, rb), ln, true);
+                        self.push(ind, "}".into(), 0, false);
+                        return;
+                    }
+                }
                 if self.ops && matches!(&*a.right, syn::Expr::Block(_) | syn::Expr::If(_)) {
                     // R34: X = { stmts; tail } / X = if c { .. } else { .. }: the assignment moves to the tail of every branch
                     let l = self.expr(&a.left);
@@ -1285,7 +1340,17 @@ impl<'a> Tx<'a> {
                 }
                 None => self.push(ind, "break;".into(), ln, true),
             },
-            syn::Expr::Continue(_) => self.push(ind, "continue;".into(), ln, true),
+            syn::Expr::Continue(_) => {
+                if self.ops && self.break_targets.is_empty() {
+                    // an extracted match arm / closure body: `continue` of the enclosing loop leaves the extracted block
+                    let k = self.ret_count;
+                    self.ret_count += 1;
+                    self.mark(ind, format!("ret#{}", k));
+                    self.push(ind, "return;".into(), ln, true);
+                } else {
+                    self.push(ind, "continue;".into(), ln, true);
+                }
+            }
             syn::Expr::Macro(m) => {
                 let n = m.mac.path.segments.last().map(|s| s.ident.to_string()).unwrap_or_default();
                 match n.as_str() {
@@ -1398,7 +1463,18 @@ pub fn generate(idx: &SrcIndex, template: &str) -> ArenaOut {
             closure_no = it.next().and_then(|x| x.parse().ok());
             k
         });
-        if let Some(key) = t.strip_prefix("//@FN ").or(fnv).or(fnc_key.as_deref()) {
+        // //@FNA <fn key> <pattern prefix> <k>: the body of the k-th match arm of that function whose pattern starts with the prefix
+        let fna = t.strip_prefix("//@FNA ");
+        let mut arm_sel: Option<(String, usize)> = None;
+        let fna_key: Option<String> = fna.map(|r| {
+            let mut it = r.split_whitespace();
+            let k = it.next().unwrap_or("").to_string();
+            let pat = it.next().unwrap_or("").to_string();
+            let n = it.next().and_then(|x| x.parse().ok()).unwrap_or(0);
+            arm_sel = Some((pat, n));
+            k
+        });
+        if let Some(key) = t.strip_prefix("//@FN ").or(fnv).or(fnc_key.as_deref()).or(fna_key.as_deref()) {
             let verbatim = fnv.is_some();
             let wrap = template.contains("//@DIALECT WRAP");
             let ops = template.contains("//@DIALECT OPS") || wrap;
@@ -1469,15 +1545,48 @@ pub fn generate(idx: &SrcIndex, template: &str) -> ArenaOut {
                 }
                 _ => None,
             };
-            let found = if closure_no.is_some() { closure_fn.as_ref() } else { idx.find_fn(&key) };
+            let arm_fn: Option<FnInfo> = match (&arm_sel, idx.find_fn(&key)) {
+                (Some((pat, k)), Some(f0)) => {
+                    struct Ar { pat: String, found: Vec<syn::Arm> }
+                    impl<'ast> syn::visit::Visit<'ast> for Ar {
+                        fn visit_arm(&mut self, a: &'ast syn::Arm) {
+                            if toks(&a.pat).replace(' ', "").starts_with(&self.pat) {
+                                self.found.push(a.clone());
+                            }
+                            syn::visit::visit_arm(self, a);
+                        }
+                    }
+                    let mut v = Ar { pat: pat.clone(), found: vec![] };
+                    syn::visit::Visit::visit_block(&mut v, &f0.block);
+                    match v.found.get(*k) {
+                        Some(a) => {
+                            let block: syn::Block = match &*a.body {
+                                syn::Expr::Block(b) => b.block.clone(),
+                                other => syn::parse_quote!({ #other }),
+                            };
+                            let mut f1 = f0.clone();
+                            f1.line_start = a.span().start().line;
+                            f1.line_end = a.span().end().line;
+                            f1.block = block;
+                            Some(f1)
+                        }
+                        None => {
+                            errors.push(format!("lost anchor: function {} has no match arm `{}` #{}", key, pat, k));
+                            None
+                        }
+                    }
+                }
+                _ => None,
+            };
+            let found = if closure_no.is_some() { closure_fn.as_ref() } else if arm_sel.is_some() { arm_fn.as_ref() } else { idx.find_fn(&key) };
             match found {
                 None => {
-                    if closure_no.is_none() {
+                    if closure_no.is_none() && arm_sel.is_none() {
                         errors.push(format!("lost anchor: function {} not found", key));
                     }
                 }
                 Some(f) => {
-                    let mut tx = Tx { f, lines: vec![], errors: vec![], aliases: vec![], loop_count: 0, ret_count: 0, self_is_bin: f.owner == "TreeBin" && !own, pre: vec![], tmp_count: 0, verbatim, self_ptr: own, ctx: vec![], lock_vars: vec![], value_vars: vec![], ops, wrap, break_targets: vec![] };
+                    let mut tx = Tx { f, lines: vec![], errors: vec![], aliases: vec![], loop_count: 0, ret_count: 0, self_is_bin: f.owner == "TreeBin" && !own, pre: vec![], tmp_count: 0, verbatim, self_ptr: own, ctx: vec![], lock_vars: vec![], value_vars: vec![], ops, wrap, break_targets: vec![], link_alias: None, link_subst: None };
                     tx.block(&f.block, 1);
                     errors.extend(tx.errors.iter().cloned());
                     // resolve anchors
